@@ -1171,6 +1171,7 @@ class Pool:
         self.n = n
         self.procs: list[subprocess.Popen | None] = [None] * n
         self.restarts = 0
+        self.served: dict[int, int] = {}
 
     def _start(self, k: int) -> subprocess.Popen:
         wd = os.path.join(self.root, f"w{k}")
@@ -1194,6 +1195,14 @@ class Pool:
     def _one(self, k: int, job: dict[str, Any]) -> dict[str, Any]:
         """The time limit is CPU time of the worker (robust against a loaded machine); wall time is
         only a backstop (WALL_FACTOR x limit)."""
+        self.served[k] = self.served.get(k, 0) + 1
+        if self.served[k] % 250 == 0 and self.procs[k] is not None:      # recycle: bounded memory of a long-lived worker
+            try:
+                self.procs[k].stdin.close()  # type: ignore[union-attr]
+                self.procs[k].wait(timeout=20)  # type: ignore[union-attr]
+            except Exception:  # noqa
+                self._kill(k)
+            self.procs[k] = None
         p = self.procs[k] or self._start(k)
         timeout = float(job.get("timeout", PER_FILE_TIMEOUT))
         wd = os.path.join(self.root, f"w{k}")
@@ -1269,15 +1278,16 @@ class Pool:
         return [r if r is not None else {"id": -1, "status": -4, "exc": "NoResult", "out": "", "err": "", "tb": ""} for r in results]
 
     def close(self) -> None:
+        # no graceful shutdown: tearing down 16 interpreters with mypy's heaps one after the other took over a minute
         for k in range(self.n):
             p = self.procs[k]
             if p is not None:
                 try:
-                    assert p.stdin is not None
-                    p.stdin.close()
-                    p.wait(timeout=5)
+                    p.kill()
                 except Exception:  # noqa
-                    self._kill(k)
+                    pass
+        for k in range(self.n):
+            self._kill(k)
 
 
 # =====================================================================================
@@ -1768,8 +1778,9 @@ def total_lines(files: dict[str, str]) -> int:
     return sum(len(v.splitlines()) for v in files.values())
 
 
-def corpus_probes() -> list[dict[str, Any]]:
-    """Minimised past failures (committed under corpus/C20), run first: deterministic re-detection."""
+def corpus_probes(quick: bool = False) -> list[dict[str, Any]]:
+    """Minimised past failures, degenerate-form probes and the directed corpus (committed under corpus/C20), run first
+    in every tier, independent of the seed.  quick: entries marked "q": false are skipped."""
     out = []
     for p in sorted(glob.glob(os.path.join(CORPUS_DIR, "*.json"))):
         try:
@@ -1778,11 +1789,287 @@ def corpus_probes() -> list[dict[str, Any]]:
             continue
         for e in d if isinstance(d, list) else [d]:
             if "files" in e:
+                if quick and e.get("q") is False:
+                    continue
                 args = list(e.get("args", []))
-                out.append({"name": "corpus:" + os.path.basename(p), "desc": "corpus", "files": e["files"], "args": args,
+                out.append({"name": "corpus:" + os.path.basename(p) + (":" + str(e["name"]) if e.get("name") else ""), "desc": "corpus", "files": e["files"], "args": args,
                             "targets": e.get("targets", ["main.py"]), "flagkey": flagkey(args), "expect": e.get("key"),
                             "timeout": e.get("timeout", PER_FILE_TIMEOUT)})
     return out
+
+
+# ------------------------------------------------------------------ the DIRECTED corpus
+# corpus/C20/directed.json is the output of gen_directed() (python tools/harness/C20.py --gen-directed).
+# It does not depend on the seed and is run first in every tier (batch: all; daemon: every 4th in quick, all in thorough).
+# One small parsable program per (guard shape x position): see notes/C20.md "Directed corpus".
+
+HDR = "from typing import *\nfrom typing_extensions import *\nimport enum, abc, dataclasses, functools, contextlib\n"
+
+# cyclic / forward / undefined definition shapes for the name X (helpers Y, Z, A, B, M)
+CYCLIC_DEFS: list[tuple[str, list[str]]] = [
+    ("alias-cycle", ["X = Y", "Y = X"]),
+    ("alias-cycle3", ["X = Y", "Y = Z", "Z = X"]),
+    ("alias-self", ["X = X"]),
+    ("alias-self-generic", ["X = List[X]"]),
+    ("alias-generic-cycle", ["X = List[Y]", "Y = Union[int, X]"]),
+    ("alias-optional-cycle", ["X = Optional[Y]", "Y = Dict[str, X]"]),
+    ("alias-callable-cycle", ["X = Callable[[Y], X]", "Y = Callable[..., X]"]),
+    ("alias-attr-undefined", ["X = Y.z"]),
+    ("alias-undefined", ["X = Undefined1"]),
+    ("type-stmt-cycle", ["type X = Y", "type Y = X"]),
+    ("type-stmt-self", ["type X = X | list[X]"]),
+    ("typealias-annot-cycle", ["X: TypeAlias = 'Y'", "Y: TypeAlias = X"]),
+    ("class-base-cycle", ["class X(Y): pass", "class Y(X): pass"]),
+    ("class-base-self", ["class X(X): pass"]),
+    ("class-base-later", ["class X(Y): pass", "class Y: pass"]),
+    ("class-base-via-alias", ["class X(A): pass", "A = X"]),
+    ("class-base-via-generic-alias", ["class X(List[A]): pass", "A = X"]),
+    ("class-base-via-alias-cycle", ["class X(A): pass", "A = B", "B = A"]),
+    ("class-generic-base-cycle", ["class X(Generic[T], Y[T]): pass", "class Y(X[T]): pass", "T = TypeVar('T')"]),
+    ("metaclass-cycle", ["class X(metaclass=Y): pass", "class Y(X): pass"]),
+    ("metaclass-self", ["class X(metaclass=X): pass"]),
+    ("metaclass-alias", ["class X(metaclass=M): pass", "M = X"]),
+    ("metaclass-later", ["class X(metaclass=Y): pass", "class Y(type): pass"]),
+    ("typevar-bound-cycle", ["T1 = TypeVar('T1', bound='X')", "X = List[T1]"]),
+    ("typevar-bound-self", ["X = TypeVar('X', bound='X')"]),
+    ("typevar-bound-alias-cycle", ["X = TypeVar('X', bound=Y)", "Y = X"]),
+    ("typevar-values-later", ["X = TypeVar('X', Y, int)", "class Y: pass"]),
+    ("typevar-default-cycle", ["X = TypeVar('X', default=Y)", "Y = TypeVar('Y', default=X)"]),
+    ("paramspec-default-later", ["X = ParamSpec('X', default=[Y])", "Y = int"]),
+    ("typevartuple-default", ["X = TypeVarTuple('X', default=Unpack[Tuple[Y, ...]])", "Y = X"]),
+    ("namedtuple-func-cycle", ["X = NamedTuple('X', [('a', Y)])", "Y = X"]),
+    ("namedtuple-func-later", ["X = NamedTuple('X', [('a', 'Y'), ('b', Y)])", "class Y(X): pass"]),
+    ("namedtuple-class-cycle", ["class X(NamedTuple):\n    a: Y", "class Y(NamedTuple):\n    b: X"]),
+    ("collections-namedtuple", ["import collections\nX = collections.namedtuple('X', Y)", "Y = X"]),
+    ("typeddict-func-cycle", ["X = TypedDict('X', {'a': Y})", "Y = List[X]"]),
+    ("typeddict-class-cycle", ["class X(TypedDict):\n    a: Y", "class Y(X):\n    b: 'X'"]),
+    ("typeddict-base-alias", ["class X(A):\n    a: int", "A = TypedDict('A', {'k': X})"]),
+    ("newtype-cycle", ["X = NewType('X', Y)", "Y = NewType('Y', X)"]),
+    ("newtype-alias-cycle", ["X = NewType('X', Y)", "Y = X"]),
+    ("newtype-self", ["X = NewType('X', 'X')"]),
+    ("enum-func-later", ["X = enum.Enum('X', Y)", "Y = 'a b'"]),
+    ("enum-func-cycle", ["X = enum.Enum('X', X)"]),
+    ("enum-class-cycle", ["class X(enum.Enum):\n    A = Y", "Y = X.A"]),
+    ("enum-base-cycle", ["class X(Y, enum.Enum): pass", "class Y(X): pass"]),
+    ("protocol-cycle", ["class X(Protocol):\n    def m(self) -> 'Y': ...", "class Y(X, Protocol):\n    a: X"]),
+    ("dataclass-cycle", ["@dataclasses.dataclass\nclass X(Y):\n    a: 'X'", "@dataclasses.dataclass\nclass Y(X):\n    b: X = X()"]),
+    ("import-self", ["from main import X"]),
+    ("import-self-star", ["from main import *\nX = Y", "Y = X"]),
+    ("import-cycle-mod", ["from cyc import X", "Y = X"]),
+    ("var-forward", ["X = Y()", "class Y: pass"]),
+    ("func-forward", ["def X(a: Y) -> Y: return a", "Y = X"]),
+    ("cond-def", ["if int():\n    X = Y\nelse:\n    class X: pass", "Y = X"]),
+    ("del-then-use", ["class X: pass\ndel X", "Y = X"]),
+    ("nested-class-cycle", ["class X:\n    class In(Y): pass", "class Y(X.In): pass"]),
+    ("class-attr-alias-cycle", ["class X:\n    A = Y\n    a: A", "Y = X.A"]),
+]
+
+USES: list[tuple[str, str]] = [
+    ("annot", "v: X"), ("annot-generic", "v: List[X]"), ("annot-str", "v: 'X'"), ("annot-optional-value", "v: Optional[X] = None"),
+    ("type-comment", "v = None  # type: X"), ("func-sig", "def f(a: X, *b: X, **c: X) -> X: return a"),
+    ("func-body", "def f() -> None:\n    v: X\n    w = X\n    def g(a: X) -> X: return a"),
+    ("method", "class C:\n    a: X\n    def m(self, a: X) -> 'X': return a"),
+    ("base", "class C(X): pass"), ("generic-base", "class C(List[X]): pass"), ("base-subscript", "class C(X[int]): pass"),
+    ("metaclass", "class C(metaclass=X): pass"), ("cast", "v = cast(X, 1)"), ("call", "v = X()"), ("isinstance", "isinstance(1, X)"),
+    ("assign", "v = X"), ("alias-of", "A2 = X\nv: A2"), ("alias-generic-of", "A2 = Dict[X, X]\nv: A2"), ("attr", "v = X.attr"),
+    ("subscript", "v: X[int]"), ("typevar-bound", "U = TypeVar('U', bound=X)\ndef f(a: U) -> U: return a"),
+    ("typevar-values", "U = TypeVar('U', X, int)"), ("namedtuple-field", "N = NamedTuple('N', [('a', X)])"),
+    ("namedtuple-class-field", "class N(NamedTuple):\n    a: X"), ("typeddict-field", "D = TypedDict('D', {'a': X})"),
+    ("typeddict-class-field", "class D(TypedDict):\n    a: Required[X]"), ("newtype-of", "N2 = NewType('N2', X)"),
+    ("callable", "v: Callable[[X], X]"), ("type-of", "v: Type[X]"), ("literal", "v: Literal[X]"), ("annotated", "v: Annotated[X, X]"),
+    ("final", "v: Final[X] = 1"), ("classvar", "class C:\n    v: ClassVar[X]"), ("tuple", "v: Tuple[X, ...]"), ("unpack", "v: Tuple[Unpack[X]]"),
+    ("concatenate", "v: Callable[Concatenate[X, ...], X]"), ("typeguard", "def f(a: object) -> TypeGuard[X]: ..."),
+    ("decorator", "@X\ndef f(): pass"), ("class-decorator", "@X\nclass C: pass"), ("with", "with X() as v: pass"),
+    ("except", "try: pass\nexcept X: pass"), ("for", "for v in X: pass"), ("default-arg", "def f(a=X): pass"),
+    ("reveal", "reveal_type(X)"), ("generic-class-arg", "class G(Generic[T0]): pass\nT0 = TypeVar('T0')\nv: G[X]"),
+    ("overload-sig", "@overload\ndef f(a: X) -> X: ...\n@overload\ndef f(a: int) -> int: ...\ndef f(a): return a"),
+    ("property-type", "class C:\n    @property\n    def p(self) -> X: ...\n    @p.setter\n    def p(self, v: X) -> None: ..."),
+    ("self-attr", "class C:\n    def __init__(self) -> None:\n        self.a: X = X()\n        self.b = []  # type: X"),
+    ("lambda", "v = lambda a=X: X"), ("comprehension", "v = [X for X in X]"), ("match-class", "match 1:\n    case X(): pass"),
+    ("star-import-use", "from main import *\nv: X"), ("global-in-func", "def f():\n    global X\n    X = X"),
+    ("type-param-bound", "def f[T2: X](a: T2) -> T2: return a"), ("type-stmt-of", "type A3 = list[X]\nv: A3"),
+    ("enum-value", "class E(enum.Enum):\n    A = X"), ("dataclass-field", "@dataclasses.dataclass\nclass DC:\n    a: X\n    b: X = X()"),
+    ("protocol-member", "class P(Protocol):\n    a: X\n    def m(self) -> X: ..."), ("del", "del X"), ("assert-type", "assert_type(X, X)"),
+]
+
+
+def _ind(src: str, n: int = 1) -> str:
+    return "\n".join("    " * n + ln for ln in src.split("\n"))
+
+
+def gen_directed() -> list[dict[str, Any]]:
+    out: list[dict[str, Any]] = []
+
+    def add(name: str, src: str, extra: dict[str, str] | None = None, args: list[str] | None = None, raw: bool = False) -> None:
+        files = {"main.py": src if raw else HDR + src + ("" if src.endswith("\n") else "\n")}
+        if extra:
+            files.update(extra)
+        out.append({"name": name, "files": files, "args": args or [], "targets": ["main.py"], "key": None})
+
+    # ---- A. cyclic / forward shapes x use x position (before the definitions, between them, after them)
+    cyc_mod = {"cyc.py": "from main import X, Y\nclass Z(X): pass\nX = Y\n"}
+    for dname, defs in CYCLIC_DEFS:
+        extra = cyc_mod if dname == "import-cycle-mod" else None
+        add(f"cyc:{dname}:alone", "\n".join(defs), extra)
+        for uname, use in USES:
+            add(f"cyc:{dname}:{uname}:before", "\n".join([use] + defs), extra)
+            if len(defs) > 1:
+                add(f"cyc:{dname}:{uname}:between", "\n".join(defs[:1] + [use] + defs[1:]), extra)
+            if uname in ("annot", "base", "func-body", "method", "alias-of", "namedtuple-field", "typevar-bound", "call"):
+                add(f"cyc:{dname}:{uname}:after", "\n".join(defs + [use]), extra)
+    # the same shapes inside a class body and inside a function body (a selection of uses)
+    for dname, defs in CYCLIC_DEFS:
+        if any(d.startswith(("type ", "from ", "import ")) for d in defs):
+            continue
+        for uname, use in USES[:4] + [u for u in USES if u[0] in ("base", "alias-of", "call", "namedtuple-field")]:
+            body = "\n".join([use] + defs)
+            add(f"cyc-in-class:{dname}:{uname}", "class Outer:\n" + _ind(body))
+            add(f"cyc-in-func:{dname}:{uname}", "def outer() -> None:\n" + _ind(body))
+
+    # ---- B1. multi-part properties: @property p, k stray plain defs, setter/deleter in every order, strays at every position
+    getter = "    @property\n    def p(self) -> int: return 1"
+    stray = "    def p(self) -> int: return 2"
+    parts = {"S": "    @p.setter\n    def p(self, v: int) -> None: pass", "D": "    @p.deleter\n    def p(self) -> None: pass",
+             "G": "    @p.getter\n    def p(self) -> int: return 3", "W": "    @q.setter\n    def p(self, v: int) -> None: pass",
+             "O": "    @overload\n    def p(self) -> int: ...", "N": "    p = 1", "A": "    @abc.abstractmethod\n    def p(self) -> int: ...",
+             "F": "    @p.setter\n    @functools.wraps(int)\n    def p(self, v: int) -> None: pass", "X": "    x = 0"}
+    orders = ["", "S", "D", "SD", "DS", "SS", "G", "W", "O", "N", "A", "F", "SDS", "X", "XS", "SX"]
+    for order in orders:
+        for k in (0, 1, 2, 3):
+            seq = [parts[c] for c in order]
+            for pos in sorted({0, len(seq)} | ({1} if len(seq) > 1 else set())):
+                items = seq[:pos] + [stray] * k + seq[pos:]
+                add(f"prop:{order or '-'}:stray{k}@{pos}", "class C:\n" + "\n".join([getter] + items) + "\nc = C()\nc.p = 1\nreveal_type(c.p)\ndel c.p")
+                if k and order in ("", "S", "SD"):
+                    add(f"prop-module:{order or '-'}:stray{k}@{pos}", "\n".join(ln[4:] for ln in "\n".join([getter] + items).split("\n")))
+    for k in (1, 2, 3):      # strays BEFORE the property, property twice, cached_property, property parts under `if`
+        add(f"prop:stray-before{k}", "class C:\n" + "\n".join([stray] * k + [getter, parts["S"]]))
+        add(f"prop:twice{k}", "class C:\n" + "\n".join([getter] * k + [parts["S"]] + [getter]))
+        add(f"prop:cached{k}", "class C:\n    @functools.cached_property\n    def p(self) -> int: return 1\n" + "\n".join([stray] * k + [parts["S"]]))
+        add(f"prop:in-if{k}", "class C:\n" + getter + "\n    if int():\n" + _ind("\n".join([stray] * k + [parts["S"]])))
+
+    # ---- B2. overload sequences interrupted by other statements
+    ov = "@overload\ndef f(a: int) -> int: ..."
+    ov2 = "@overload\ndef f(a: str) -> str: ..."
+    impl = "def f(a): return a"
+    inter = {"assign": "z = 1", "pass": "pass", "otherdef": "def g(): pass", "class": "class K: pass", "expr": "f", "samevar": "f = 1",
+             "if": "if int():\n    @overload\n    def f(a: bytes) -> bytes: ...", "import": "import os", "del": "del f", "otherov": "@overload\ndef g(a: int) -> int: ...",
+             "prop": "@property\ndef f(self) -> int: ...", "docstring": "\"doc\"", "typed": "f: Callable[..., Any]"}
+    for n_ov in (0, 1, 2, 3):
+        for has_impl in (False, True):
+            base = ([ov, ov2, ov][:n_ov]) + ([impl] if has_impl else [])
+            tag = f"{n_ov}:{'impl' if has_impl else 'noimpl'}"
+            add(f"overload:{tag}", "\n".join(base) or "pass")
+            for iname, istmt in inter.items():
+                for pos in range(len(base) + 1):
+                    seq = base[:pos] + [istmt] + base[pos:]
+                    add(f"overload:{tag}:{iname}@{pos}", "\n".join(seq))
+                    if iname in ("assign", "pass", "otherdef", "samevar", "if", "prop") and n_ov >= 1:
+                        add(f"overload-in-class:{tag}:{iname}@{pos}", "class C:\n" + _ind("\n".join(seq).replace("(a", "(self, a")))
+    for deco in ("staticmethod", "classmethod", "property", "abc.abstractmethod", "final", "functools.cache", "contextlib.contextmanager", "no_type_check"):
+        add(f"overload:mixed-{deco}", f"class C:\n    @overload\n    @{deco}\n    def f(a: int) -> int: ...\n    @{deco}\n    @overload\n    def f(a: str) -> str: ...\n    @{deco}\n    def f(a): return a")
+    add("overload:stub", "import m\nreveal_type(m.f)", {"m.pyi": "from typing import overload\n@overload\ndef f(a: int) -> int: ...\nx: int\n@overload\ndef f(a: str) -> str: ...\n"})
+
+    # ---- B3. decorator lists on functions, methods, classes
+    decos = ["undefined_name", "undefined.attr", "int", "int()", "(lambda f: f)", "1", "None", "property", "staticmethod", "classmethod",
+             "abc.abstractmethod", "final", "override", "overload", "dataclasses.dataclass", "dataclasses.dataclass(frozen=True)", "no_type_check",
+             "type_check_only", "contextlib.contextmanager", "functools.cache", "functools.singledispatch", "functools.total_ordering", "runtime_checkable",
+             "dataclass_transform()", "deprecated('x')", "enum.unique", "f", "C", "C.m", "(yield)", "[*x][0]"]
+    for d1 in decos:
+        add(f"deco:func:{d1}", f"@{d1}\ndef f(a: int = 1) -> int: return a\nreveal_type(f)")
+        add(f"deco:method:{d1}", f"class C:\n    @{d1}\n    def m(self, a: int = 1) -> int: return a\nreveal_type(C().m)\nreveal_type(C.m)")
+        add(f"deco:class:{d1}", f"@{d1}\nclass C:\n    a: int = 1\nreveal_type(C)\nC()")
+        for d2 in ("property", "staticmethod", "classmethod", "overload", "abc.abstractmethod", "final", "functools.cache"):
+            add(f"deco:method2:{d1}+{d2}", f"class C:\n    @{d1}\n    @{d2}\n    def m(self) -> int: return 1\n    @{d2}\n    @{d1}\n    def n(self) -> int: return 1\nC().m\nC.n")
+
+    # ---- B4. duplicate definitions of every kind x every kind, module level and class level
+    kinds = {"def": "def N(): pass", "class": "class N: pass", "var": "N = 1", "annvar": "N: int = 1", "import": "import os as N", "from": "from os import path as N",
+             "alias": "N = List[int]", "typevar": "N = TypeVar('N')", "namedtuple": "N = NamedTuple('N', [('a', int)])", "typeddict": "N = TypedDict('N', {'a': int})",
+             "newtype": "N = NewType('N', int)", "enum": "N = enum.Enum('N', 'a b')", "overload": "@overload\ndef N(a: int) -> int: ...\n@overload\ndef N(a: str) -> str: ...\ndef N(a): return a",
+             "property": "@property\ndef N(self) -> int: ...", "for": "for N in [1]: pass", "with": "with open('x') as N: pass", "except": "try: pass\nexcept Exception as N: pass",
+             "type-stmt": "type N = int", "func-param": "def g(N): N = 1", "global-decl": "def g():\n    global N\n    N = 2", "del": "del N", "walrus": "(N := 1)",
+             "match": "match 1:\n    case N: pass", "classdef-nt": "class N(NamedTuple):\n    a: int", "classdef-enum": "class N(enum.Enum):\n    a = 1", "star": "from os import *"}
+    for k1, s1 in kinds.items():
+        for k2, s2 in kinds.items():
+            add(f"dup:{k1}+{k2}", s1 + "\n" + s2 + "\nreveal_type(N)")
+    for k1, s1 in kinds.items():
+        for k2 in ("def", "class", "var", "alias", "typevar", "namedtuple", "import", "overload", "property", "del"):
+            add(f"dup-in-class:{k1}+{k2}", "class Outer:\n" + _ind(s1 + "\n" + kinds[k2] + "\nv: N"))
+
+    # ---- B5. control flow statements in odd places
+    flows = ["return", "return 1", "yield", "yield 1", "yield from []", "await x", "break", "continue", "raise", "pass", "global q", "nonlocal q", "del q", "import q",
+             "from q import *", "assert 0", "x = yield", "x = await y", "async for i in y: pass", "async with y: pass", "[await z for z in y]", "[i async for i in y]",
+             "(yield)", "lambda: (yield)", "lambda: (await y)", "lambda: (z := 1)", "[(z := i) for i in y]", "__class__", "super().m()", "super", "type x = int",
+             "class K: return", "def k(): nonlocal q", "def k(): global k; k = 1", "while 1: break\nelse: continue", "for i in y: pass\nelse: break",
+             "try: pass\nfinally: return", "try: pass\nfinally: break", "try: pass\nfinally: continue", "with y: return", "match y:\n    case _ if (yield): pass"]
+    places = {"module": "{S}", "class": "class C:\n{I}", "func": "def f():\n{I}", "async-func": "async def f():\n{I}", "method": "class C:\n    def m(self):\n{II}",
+              "nested-class-in-func": "def f():\n    class C:\n{II}", "loop": "for i in y:\n{I}", "loop-in-class": "class C:\n    for i in y:\n{II}",
+              "func-in-loop": "while 1:\n    def f():\n{II}", "class-in-loop": "while 1:\n    class C:\n{II}", "if": "if y:\n{I}", "try-finally": "try:\n    pass\nfinally:\n{I}",
+              "with": "with y:\n{I}", "match": "match y:\n    case 1:\n{II}", "except-star": "try:\n    pass\nexcept* E:\n{I}", "lambda-default": "def f(a=lambda: 1):\n{I}"}
+    for fl in flows:
+        for pname, tmpl in places.items():
+            src = tmpl.replace("{S}", fl).replace("{II}", _ind(fl, 2)).replace("{I}", _ind(fl, 1))
+            add(f"flow:{pname}:{fl.splitlines()[0][:24]}", "y: Any = 1\n" + src, args=["--check-untyped-defs"])
+    for e in ("(yield)", "(await y)", "(yield from y)", "(z := 1)", "lambda: (yield)", "[i for i in (yield)]", "{**(yield)}", "f'{(yield)}'", "... if (yield) else ..."):
+        for holder in ("def f(a={E}): pass", "def f(a: {E}): pass", "def f() -> {E}: pass", "@{E}\ndef f(): pass", "class C({E}): pass", "class C(metaclass={E}): pass",
+                       "x: {E} = 1", "x: int = {E}", "class C:\n    x = {E}", "class C:\n    x: {E}", "type A = {E}", "def f[T: {E}](): pass", "del {E}", "assert {E}, {E}",
+                       "for i in {E}: pass", "with {E} as w: pass", "x = [{E} for i in y]", "x = {{ {E}: {E} }}", "raise {E} from {E}", "match {E}:\n    case _: pass"):
+            add(f"flow-expr:{holder.splitlines()[0][:22]}:{e}", "y: Any = 1\n" + holder.replace("{{", "{").replace("}}", "}").replace("{E}", e), args=["--check-untyped-defs"])
+
+    # ---- C. special forms with degenerate argument lists
+    forms = ["NamedTuple()", "NamedTuple('X')", "NamedTuple('X', [])", "NamedTuple('X', [('a',)])", "NamedTuple('X', [('a', int, 1)])", "NamedTuple('X', [(1, int)])", "NamedTuple('X', 'a b')",
+             "NamedTuple('X', [('a', int)], x=1)", "NamedTuple('Y', [('a', int)])", "NamedTuple('X', [('a', int), ('a', str)])", "NamedTuple('X', [('_a', int)])", "NamedTuple('X', a=int)",
+             "NamedTuple(name='X', fields=[])", "NamedTuple('X', [*y])", "NamedTuple('X', y)", "NamedTuple(*y)", "NamedTuple('X', [('a', 'X')])", "NamedTuple('X', [('a', List['X'])])",
+             "collections.namedtuple('X', 'a a')", "collections.namedtuple('X', ['def'], rename=True)", "collections.namedtuple('X', 'a', defaults=(1, 2))", "collections.namedtuple('X')",
+             "collections.namedtuple('X', 1)", "collections.namedtuple('X', ['a', 1])",
+             "TypedDict()", "TypedDict('X')", "TypedDict('X', {})", "TypedDict('X', {1: int})", "TypedDict('X', {'a': 1})", "TypedDict('X', {'a': int}, total=y)", "TypedDict('X', a=int)",
+             "TypedDict('Y', {'a': int})", "TypedDict('X', {'a': 'X'})", "TypedDict('X', {**y})", "TypedDict('X', y)", "TypedDict('X', {'a': Required[NotRequired[int]]})", "TypedDict('X', {'a': ReadOnly['X']}, closed=True)",
+             "TypedDict('X', {'a': int}, total=False, extra_items=X)", "NewType()", "NewType('X')", "NewType('X', 1)", "NewType('X', int, 1)", "NewType('Y', int)", "NewType('X', Any)", "NewType('X', Union[int, str])",
+             "NewType('X', List['X'])", "NewType('X', Protocol)", "NewType('X', TypedDict('D', {}))", "NewType(*y)", "NewType('X', tp=int)", "enum.Enum()", "enum.Enum('X')", "enum.Enum('X', 1)", "enum.Enum('X', [])",
+             "enum.Enum('X', 'a a')", "enum.Enum('X', [('a', 1), ('a', 2)])", "enum.Enum('X', {'a': X})", "enum.Enum('Y', 'a')", "enum.Enum('X', y)", "enum.Enum('X', names='a', module=1, start=y)",
+             "enum.Enum('X', ['a', 1])", "enum.IntFlag('X', 'a', type=X)", "enum.Enum(*y)", "TypeVar()", "TypeVar('X', bound=1)", "TypeVar('X', int)", "TypeVar('X', int, bound=str)",
+             "TypeVar('Y')", "TypeVar('X', covariant=True, contravariant=True)", "TypeVar('X', covariant=y)", "TypeVar('X', bound=X)", "TypeVar('X', 'X', int)", "TypeVar('X', default=X)", "TypeVar('X', infer_variance=1)",
+             "TypeVar(name='X')", "TypeVar('X', *y)", "TypeVar('X', **y)", "TypeVar('X', bound=List['X'])", "ParamSpec()", "ParamSpec('Y')", "ParamSpec('X', bound=int)", "ParamSpec('X', default=int)",
+             "ParamSpec('X', default=[X])", "ParamSpec('X', default=...)", "TypeVarTuple()", "TypeVarTuple('Y')", "TypeVarTuple('X', default=int)", "TypeVarTuple('X', default=Unpack[X])", "TypeAliasType('X', int)",
+             "TypeAliasType('X', 'X')", "TypeAliasType('Y', int, type_params=(y,))", "TypeAliasType('X', List[X], type_params=())", "cast()", "cast(int)", "cast(1, 1)", "cast('X', 1)", "cast(int, 1, 2)", "cast(typ=int, val=1)",
+             "reveal_type()", "reveal_type(1, 2)", "reveal_locals(1)", "assert_type(1)", "assert_type()", "Generic[int]", "Protocol[int]", "List[int]()", "Callable[[X], X]", "Literal[X]", "Annotated[int]", "Annotated[()]",
+             "Union[()]", "Optional[int, str]", "Tuple[()]", "Tuple[...]", "Tuple[int, ..., int]", "Callable[...]", "Callable[int]", "Callable[[...], int]", "Callable[[int], ...]", "Concatenate[int]", "Concatenate[...]",
+             "Concatenate[int, int]", "Unpack[int]", "Unpack[X]", "Type[()]", "Type[int, str]", "ClassVar[int, str]", "Final[int, str]", "Required[int]", "NotRequired[()]", "TypeGuard[int, str]", "Self[int]", "Never[int]",
+             "LiteralString[int]", "type[X][X]", "super()", "super(X)", "super(X, X).x", "dataclasses.field()", "dataclasses.make_dataclass('X', [('a', 'X')])", "functools.partial(X)", "functools.partial()",
+             "functools.total_ordering(1)", "property()", "property(X, X, X, X)", "staticmethod()", "classmethod(X)", "type('X', (), {})", "type('X', (X,), {'a': X})", "type(X)", "__import__('X')", "namedtuple('X', 'a')"]
+    for f in forms:
+        add(f"form:{f[:40]}", f"import collections\ny: Any = 1\nX = {f}\nv: X\nw = X\nclass Sub(X): pass\ndef g(a: X) -> X: return X()")
+        add(f"form-in-class:{f[:40]}", f"import collections\ny: Any = 1\nclass C:\n    X = {f}\n    v: X\n    def m(self, a: X) -> 'C.X': return self.X()")
+        add(f"form-in-func:{f[:40]}", f"import collections\ny: Any = 1\ndef fn() -> None:\n    X = {f}\n    v: X\n    class Sub(X): pass\n    reveal_type(X)", args=["--check-untyped-defs"])
+        add(f"form-as-base:{f[:40]}", f"import collections\ny: Any = 1\nclass C({f}):\n    a: int = 1\nC()\nclass D(C, {f}): pass")
+        add(f"form-as-annot:{f[:40]}", f"import collections\ny: Any = 1\nv: {f}\ndef g(a: {f} = 1, *b: {f}) -> {f}: return a")
+
+    # ---- D. empty / minimal bodies and files
+    for nm, src in {"empty": "", "only-comment": "# x\n", "only-docstring": "\"d\"\n", "only-pass": "pass\n", "only-ellipsis": "...\n", "bom": "\ufeffx = 1\n", "crlf": "x = 1\r\ny = 2\r\n",
+                    "formfeed": "x = 1\n\x0cy = 2\n", "no-newline": "x = 1", "type-ignore-top": "# type: ignore\nx: int = ''\n", "mypy-comment": "# mypy: disallow-any-expr, bogus-flag=1\nx = 1\n",
+                    "encoding": "# -*- coding: latin-1 -*-\nx = '\xe9'\n", "future": "from __future__ import annotations, bogus\nx: X\n", "all": "__all__ = ['a', 1, *x]\n__all__ += y\n__all__.append(z)\n",
+                    "slots": "class C:\n    __slots__ = 1\nclass D:\n    __slots__ = ('a', *x)\nclass E:\n    __slots__ = 'a'\n    a = 1\n", "match-args": "class C:\n    __match_args__ = 1\nmatch C():\n    case C(1): pass\n",
+                    "dunder-class-getitem": "class C:\n    __class_getitem__ = 1\nC[int]\nv: C[int]\n", "init-subclass": "class C:\n    def __init_subclass__(cls, **kw: X) -> None: ...\nclass D(C, a=1, metaclass=Y): pass\n",
+                    "getattr-module": "def __getattr__(name): ...\nfrom main import anything\nv: anything\n", "path-dunder": "__path__ = 1\n__file__: int\n__name__ = X\n"}.items():
+        add(f"file:{nm}", src, raw=True)
+    fam_idx: dict[str, int] = {}
+    for e in out:
+        parts_ = e["name"].split(":")
+        fam = parts_[0]
+        i = fam_idx[fam] = fam_idx.get(fam, -1) + 1
+        if fam == "cyc":
+            q = parts_[2] == "alone" or (parts_[2] in QUICK_USES and parts_[-1] in ("before", "between"))
+        elif fam in ("cyc-in-class", "cyc-in-func"):
+            q = parts_[2] == "annot"
+        elif fam in ("prop", "prop-module", "file"):
+            q = True
+        else:
+            q = i % 6 == 0
+        e["q"] = q          # member of the quick-tier subset
+    return out
+
+
+QUICK_USES = {"annot", "base", "call", "alias-of", "func-body", "metaclass", "namedtuple-field", "type-comment"}
 
 
 class Finding:
@@ -1928,7 +2215,13 @@ STALE_SEQ: list[dict[str, str]] = [
 ]
 
 
-def daemon_script(seq: list[dict[str, str]]) -> list[tuple[int, str, bool]]:
+NOTES_SEQ: list[dict[str, str]] = [{"main.py": "reveal_type(1)\n"}, {"main.py": "reveal_type(1)\n\n"}]
+
+
+RECHECK_SEQ: list[dict[str, str]] = [{"main.py": "import m\n", "m.py": "x = 1\n"}, {"main.py": "def f( -> None: pass\n"}]   # 2nd request: `recheck`
+
+
+def daemon_script(seq: list[dict[str, str]], cmds: list[str] | None = None) -> list[tuple[int, str, bool]]:
     """A fixed edit history against a fresh daemon: `check -- main.py` after every edit (own mtime second each)."""
     d = tempfile.mkdtemp(prefix="c20-dms-")
     sf = os.path.join(d, "status.json")
@@ -1940,7 +2233,7 @@ def daemon_script(seq: list[dict[str, str]]) -> list[tuple[int, str, bool]]:
         st, o, h = _dmypy(sf, ["start", "--", "--show-traceback", "--no-error-summary", "--no-color-output", "--cache-dir", os.devnull], wd)
         if st != 0:
             return [(st, o, h)]
-        for files in seq:
+        for i, files in enumerate(seq):
             clock += 7
             for f in os.listdir(wd):
                 os.remove(os.path.join(wd, f))
@@ -1948,8 +2241,63 @@ def daemon_script(seq: list[dict[str, str]]) -> list[tuple[int, str, bool]]:
                 with open(os.path.join(wd, rel), "w") as fh:
                     fh.write(src)
                 os.utime(os.path.join(wd, rel), (clock, clock))
-            out.append(_dmypy(sf, ["check", "--", "main.py"], wd))
+            out.append(_dmypy(sf, ["recheck"] if cmds and cmds[i] == "recheck" else ["check", "--", "main.py"], wd))
         return out
+    finally:
+        try:
+            _dmypy(sf, ["kill"], d, limit=20)
+        except Exception:  # noqa
+            pass
+        shutil.rmtree(d, ignore_errors=True)
+
+
+def daemon_directed(progs: list[dict[str, Any]], slot: int) -> list[dict[str, Any]]:
+    """One daemon fed with directed programs as successive edits of main.py (`check -- main.py` after each).
+    Returns the failing events; the daemon is restarted when it dies."""
+    d = tempfile.mkdtemp(prefix="c20-dd-")
+    sf = os.path.join(d, "status.json")
+    wd = os.path.join(d, "w")
+    os.makedirs(wd)
+    bad: list[dict[str, Any]] = []
+    clock = int(time.time()) - 200000
+    flags = ["--check-untyped-defs"]
+
+    def start() -> int:
+        return _dmypy(sf, ["start", "--", "--show-traceback", "--no-error-summary", "--no-color-output", "--cache-dir", os.devnull] + flags, wd)[0]
+    try:
+        with open(os.path.join(wd, "main.py"), "w") as fh:
+            fh.write("x = 1\n")
+        if start() != 0:
+            return [{"step": "start", "status": -1, "out": "daemon did not start", "hung": False, "files": {}, "args": flags, "name": "start"}]
+        _dmypy(sf, ["check", "--", "main.py"], wd)
+        answered = 0
+        for i, pr in enumerate(progs):
+            clock += 7
+            for root, ds, fs in os.walk(wd, topdown=False):
+                for f in fs:
+                    os.remove(os.path.join(root, f))
+                for d_ in ds:
+                    shutil.rmtree(os.path.join(root, d_), ignore_errors=True)
+            for rel, src in pr["files"].items():
+                path = os.path.join(wd, rel)
+                with open(path, "w", encoding="utf-8", newline="") as fh:
+                    fh.write(src)
+                os.utime(path, (clock, clock))
+            st, out, hung = _dmypy(sf, ["check", "--", "main.py"], wd)
+            ev = {"step": "directed:" + pr["name"], "status": st, "out": out, "hung": hung, "files": pr["files"], "args": flags, "name": pr["name"],
+                  "history": [q["files"] for q in progs[max(0, i - 2): i + 1]]}
+            if hung or "Daemon crashed" in out or "Traceback (most recent call last)" in out or "INTERNAL ERROR" in out or st not in (0, 1, 2):
+                bad.append(ev)
+                _dmypy(sf, ["kill"], wd, limit=20)
+                with open(os.path.join(wd, "main.py"), "w") as fh:
+                    fh.write("x = 1\n")
+                if start() != 0:
+                    break
+                _dmypy(sf, ["check", "--", "main.py"], wd)
+            else:
+                answered += 1
+        bad.append({"step": "summary", "answered": answered})
+        return bad
     finally:
         try:
             _dmypy(sf, ["kill"], d, limit=20)
@@ -1980,7 +2328,7 @@ def classify_daemon(ev: dict[str, Any]) -> tuple[str, str] | None:
 def stage_S(ctx: vlib.Ctx) -> None:
     t0 = time.time()
     corpus = load_corpus()
-    n_mut = int(os.environ.get("VERIF_C20_MUTANTS", ctx.n(300, 20000)))
+    n_mut = int(os.environ.get("VERIF_C20_MUTANTS", ctx.n(96, 20000)))
     budget = float(os.environ.get("VERIF_C20_BUDGET_S", ctx.n(150, 1380)))
     root = tempfile.mkdtemp(prefix="c20-pool-")
     pool = Pool(root, vlib.NPROC)
@@ -1991,18 +2339,44 @@ def stage_S(ctx: vlib.Ctx) -> None:
     try:
         # 1. deterministic probes: the known hang (short limit) and the committed corpus of minimised failures
         probes = [{"name": "probe:pow-hang", "desc": "probe", "files": {"main.py": POW_HANG}, "args": [], "targets": ["main.py"],
-                   "flagkey": flagkey([]), "timeout": 10.0, "expect": "hang:mypy/constant_fold.py:constant_fold_binary_int_op"}] + corpus_probes()
+                   "flagkey": flagkey([]), "timeout": 10.0, "expect": "hang:mypy/constant_fold.py:constant_fold_binary_int_op"}] + corpus_probes(ctx.quick)
         for i, j in enumerate(probes):
             j["id"] = -1 - i
-        rs = pool.run(probes, chunk=1)
+        rs = pool.run(probes, chunk=30)
         redetected = 0
+        try:
+            expected_fail: dict[str, str] = json.load(open(os.path.join(CORPUS_DIR, "directed-expected.json")))
+        except (OSError, ValueError):
+            expected_fail = {}
+        directed_unexpected: list[str] = []
+        directed_fixed: list[str] = []
         for j, r in zip(probes, rs):
             k = classify(r, j["args"])
+            dname = j["name"].split("directed.json:", 1)[1] if "directed.json:" in j["name"] else None
             if k is not None:
-                record(found, k[0], k[1], j, r, "probe")
+                if dname is not None and expected_fail.get(dname) != k[0]:
+                    # a directed program that is not known to fail with this key: its own key, so that a regression which
+                    # reaches an already listed crash site (e.g. the defer assertion) through a NEW path is not masked
+                    directed_unexpected.append(dname)
+                    record(found, "directed-new:" + k[0], f"directed program(s) fail that did not before: {k[1]}", j, r, "probe")
+                else:
+                    record(found, k[0], k[1], j, r, "probe")
                 redetected += 1
+            elif dname is not None and dname in expected_fail:
+                directed_fixed.append(dname)
             elif j.get("expect"):
                 ctx.log(f"S: probe {j['name']} no longer fails (expected {j['expect']})")
+        ctx.cov["directed_programs"] = sum(1 for j in probes if "directed.json:" in j["name"])
+        ctx.cov["directed_expected_failures"] = len(expected_fail)
+        ctx.cov["directed_unexpected_failures"] = directed_unexpected[:50]
+        ctx.cov["directed_no_longer_failing"] = directed_fixed[:50]
+        if os.environ.get("VERIF_C20_WRITE_EXPECTED"):
+            exp_new = {}
+            for j, r in zip(probes, rs):
+                k = classify(r, j["args"])
+                if k is not None and "directed.json:" in j["name"]:
+                    exp_new[j["name"].split("directed.json:", 1)[1]] = k[0]
+            json.dump(exp_new, open(os.environ["VERIF_C20_WRITE_EXPECTED"], "w"), indent=0, sort_keys=True)
         ctx.cov["probes"] = len(probes)
         ctx.cov["probes_failing"] = redetected
         ctx.log(f"S: {len(probes)} probes, {redetected} failing ({time.time()-t0:.1f}s)")
@@ -2059,6 +2433,53 @@ def stage_S(ctx: vlib.Ctx) -> None:
                               f"(`dmypy check main.py` answers {rs_[2][1].strip()[-120:]!r}, a fresh run answers nothing)",
                               {"kind": "daemon-history", "history": STALE_SEQ, "answers": [[a, b] for a, b, _ in rs_],
                                "command": "dmypy start; then after each edit: dmypy check -- main.py"})
+        if n_mut or os.environ.get("VERIF_C20_DAEMON_PROBE"):
+            dprogs = [e for e in json.load(open(os.path.join(CORPUS_DIR, "directed.json")))] if os.path.exists(os.path.join(CORPUS_DIR, "directed.json")) else []
+            if ctx.quick:
+                dprogs = [e for i, e in enumerate([e for e in dprogs if e.get("q")]) if i % 6 == 0]
+            else:
+                dprogs = [e for i, e in enumerate(dprogs) if e.get("q") or i % 4 == 0]
+            # programs that crash in batch mode crash the daemon the same way (one listed finding each): not repeated here
+            dprogs = [e for e in dprogs if e["name"] not in expected_fail]
+            slices = [dprogs[k::vlib.NPROC] for k in range(vlib.NPROC)]
+            with ThreadPoolExecutor(max_workers=vlib.NPROC) as ex:
+                dres = list(ex.map(lambda k: daemon_directed(slices[k], k) if slices[k] else [], range(vlib.NPROC)))
+            dd_answered = 0
+            for evs in dres:
+                for ev in evs:
+                    if ev.get("step") == "summary":
+                        dd_answered += ev["answered"]
+                        continue
+                    kd = classify_daemon(ev)
+                    if kd is not None:
+                        jobd = {"name": "daemon-directed:" + ev.get("name", ""), "desc": ev["step"], "files": ev["files"], "args": ev.get("args", []),
+                                "targets": ["main.py"], "flagkey": flagkey(ev.get("args", [])), "daemon": True, "history": ev.get("history")}
+                        kk = kd[0]
+                        if expected_fail.get(ev.get("name", "")) != kk and kk in {v_ for v_ in expected_fail.values()}:
+                            kk = "directed-new:" + kk      # reaches a listed crash site from a program that does not do so in batch mode
+                        record(found, kk, kd[1], jobd, {"status": ev["status"], "out": ev["out"], "err": ""}, "daemon")
+            ctx.cov["daemon_directed_edits"] = len(dprogs)
+            ctx.cov["daemon_directed_answered"] = dd_answered
+            ctx.add("evaluations", len(dprogs))
+            ctx.log(f"S: daemon fed with {len(dprogs)} directed programs: {dd_answered} answered ({time.time()-t0:.1f}s)")
+        if n_mut or os.environ.get("VERIF_C20_DAEMON_PROBE"):
+            rs3 = daemon_script(RECHECK_SEQ, ["check", "recheck"])
+            ctx.cov["daemon_probe_recheck_deleted_import"] = [[a, b[-160:]] for a, b, _ in rs3]
+            if rs3:
+                ev3 = {"step": "probe: delete an imported module + syntax error in main, then `recheck`", "status": rs3[-1][0], "out": rs3[-1][1], "hung": rs3[-1][2]}
+                k3 = classify_daemon(ev3)
+                if k3 is not None:
+                    record(found, k3[0], k3[1], {"name": "daemon-probe:recheck-deleted-import", "desc": ev3["step"], "files": RECHECK_SEQ[-1], "args": [],
+                                                 "targets": ["main.py"], "flagkey": flagkey([]), "daemon": True, "history": RECHECK_SEQ},
+                           {"status": ev3["status"], "out": ev3["out"], "err": ""}, "daemon")
+            rs2 = daemon_script(NOTES_SEQ)
+            ctx.cov["daemon_probe_notes_only_status"] = [[a, b[-120:]] for a, b, _ in rs2]
+            if len(rs2) == 2 and rs2[0][1].strip() == rs2[1][1].strip() and ": error:" not in rs2[1][1] and rs2[0][0] != rs2[1][0]:
+                ctx.violation("daemon:status-1-for-notes-only-on-recheck",
+                              f"dmypy check exits {rs2[0][0]} for a program whose only output is a note, and {rs2[1][0]} for the same output on every later request "
+                              "(dmypy_server.check uses count_stats, increment_output uses `1 if messages else 0`)",
+                              {"kind": "daemon-history", "history": NOTES_SEQ, "answers": [[a, b] for a, b, _ in rs2],
+                               "command": "dmypy start; dmypy check -- main.py (status 0); append a blank line; dmypy check -- main.py (status 1, same text)"})
         dm_steps = 0
         differs = 0
         for s in sessions:
@@ -2072,7 +2493,9 @@ def stage_S(ctx: vlib.Ctx) -> None:
                     record(found, k[0], k[1], job, {"status": ev["status"], "out": ev["out"], "err": ""}, "daemon")
                 if ev["step"] == "final" and ev.get("same_as_first") is False and classify_daemon(ev) is None:
                     differs += 1
-                    if not any("syntax]" in (e2.get("out") or "") or "invalid syntax" in (e2.get("out") or "") for e2 in s["events"]):
+                    if sorted(ev["out"].splitlines()) == sorted(ev.get("first", "").splitlines()) and ": error:" not in ev["out"]:
+                        pass      # same text, other exit status: the finding daemon:status-1-for-notes-only-on-recheck (own probe below)
+                    elif not any("syntax]" in (e2.get("out") or "") or "invalid syntax" in (e2.get("out") or "") for e2 in s["events"]):
                         # (stale answers that follow a blocking error are the finding daemon:stale-blocking-error-in-new-module;
                         #  any other difference is reported under its own key)
                         ctx.violation("daemon:stale-answer-after-history",
@@ -2090,13 +2513,14 @@ def stage_S(ctx: vlib.Ctx) -> None:
         for key in sorted(found):
             f = found[key]
             job = f.job
-            if f.mode != "daemon" and not key.startswith("hang:") and f.mode != "subprocess":
+            if f.mode != "daemon" and not key.startswith("hang:") and f.mode != "subprocess" and not (f.mode == "probe" and key in known):
                 k2, r2 = confirm_subprocess(job, timeout=PER_FILE_TIMEOUT * WALL_FACTOR / 3)
-                if k2 is None or k2[0] != key:
+                pref = "directed-new:" if key.startswith("directed-new:") else ""
+                if k2 is None or pref + k2[0] != key:
                     unconfirmed.append({"key": key, "in_fresh_process": k2[0] if k2 else None, "name": job.get("name")})
                     if k2 is None:
                         continue
-                    key, f.what = k2[0], k2[1]
+                    key, f.what = pref + k2[0], k2[1]
             do_shrink = f.mode in ("batch", "subprocess") and key not in known and os.environ.get("VERIF_C20_SHRINK", "1") == "1"
             if do_shrink:
                 try:
@@ -2194,3 +2618,11 @@ def replay(ctx: vlib.Ctx, path: str) -> None:
         ctx.violation(k[0], k[1], rep)
     else:
         ctx.log("replay: mypy now produces a diagnostic for this input")
+
+
+if __name__ == "__main__" and len(sys.argv) >= 2 and sys.argv[1] == "--gen-directed":
+    progs = gen_directed()
+    os.makedirs(CORPUS_DIR, exist_ok=True)
+    with open(os.path.join(CORPUS_DIR, "directed.json"), "w") as fh:
+        json.dump(progs, fh, indent=0, ensure_ascii=True)
+    print(len(progs), "directed programs written")
